@@ -54,8 +54,8 @@ impl Property for C37 {
 
     fn runs(&self, tier: Tier) -> u64 {
         match tier {
-            Tier::Quick => 48,
-            Tier::Thorough => 48 * 60,
+            Tier::Quick => 48 * 4,
+            Tier::Thorough => 48 * 400,
         }
     }
 
